@@ -127,6 +127,7 @@ class Frame:
     def __init__(self, module, fn, cls=None, defcls=None, depth=0, parent=None):
         self.module, self.fn, self.cls, self.defcls, self.depth, self.parent = module, fn, cls, defcls, depth, parent
         self.returns = []  # (term, ctx)
+        self.ret_states = []  # (heap, epoch) at every normal return point
         self.yields = []  # (term, ctx, event)
         self.is_gen = astq.is_generator(fn)
         self.static = False
@@ -274,6 +275,23 @@ class Result:
     def fmt(self, t, depth=0):
         return self.prov.fmt(t, depth)
 
+    def plain(self, t):
+        """Peel representation-preserving wrappers: ``.values``, ``.copy()``, ``.to_numpy()``, ``np.asarray(x)``."""
+        while isinstance(t, tuple) and t:
+            if t[0] == "getattr" and t[2] in ("values",):
+                t = t[1]
+                continue
+            e = self.ret_event(t)
+            if e is not None and e.kind == "call" and e.target is not None:
+                if e.target.kind == "attr" and e.name in ("copy", "to_numpy") and not e.args and e.recv is not None:
+                    t = e.recv
+                    continue
+                if e.target.kind == "ext" and e.target.ext in ("numpy.asarray", "numpy.array") and len(e.args) == 1:
+                    t = e.args[0]
+                    continue
+            break
+        return t
+
     def as_seq(self, t):
         """A list built by ``xs = []`` + one unconditional ``xs.append(v)`` inside one loop is the
         comprehension ``[v for ...]`` over that loop."""
@@ -330,7 +348,27 @@ class Prov:
         self.block(fr.fn.body, st, fr)
         if st.dead is None:
             fr.returns.append((NONE, tuple(st.ctx)))
+            fr.ret_states.append((dict(st.heap), st.epoch))
+        if fr.ret_states:
+            st.heap, st.epoch = self.merge_heaps(fr.ret_states)
         return Result(self, fr, st)
+
+    def merge_heaps(self, states):
+        """Join of the self-attribute stores over several program points (the return points of a callee)."""
+        if len(states) == 1:
+            return states[0]
+        epochs = {ep for _, ep in states}
+        if len(epochs) == 1:
+            ep = next(iter(epochs))
+            keys = set()
+            for h, _ in states:
+                keys |= set(h)
+            return {k: phi([h.get(k, self.heap_default(k, ep)) for h, _ in states]) for k in keys}, ep
+        self._uid += 1
+        ep = ("j", self._uid)
+        keys = set.intersection(*[set(h) for h, _ in states])
+        first = states[0][0]
+        return {k: first[k] for k in keys if all(h[k] == first[k] for h, _ in states)}, ep
 
     # ------------------------------------------------------------------ events
     def emit(self, kind, name, node, fr, st):
@@ -389,6 +427,7 @@ class Prov:
         e = self.emit("return", fr.fn.name, node, fr, st)
         e.value = v
         fr.returns.append((v, tuple(st.ctx)))
+        fr.ret_states.append((dict(st.heap), st.epoch))
         st.dead = "return"
         st.exits.add("return")
 
@@ -421,10 +460,12 @@ class Prov:
     def st_If(self, node, st, fr):
         cond = self.ev(node.test, st, fr)
         d = self.decide(cond)
-        if d is True:
-            return self.block(node.body, st, fr)
-        if d is False:
-            return self.block(node.orelse, st, fr)
+        if d is not None:
+            for sub_stmt in (node.body if d else node.orelse):
+                if st.dead:
+                    break
+                self.stmt(sub_stmt, st, fr)
+            return
         s1, s2 = st.copy(), st.copy()
         s1.exits, s2.exits = set(), set()
         s1.ctx.append(("if", cond, True, id(node)))
@@ -447,10 +488,14 @@ class Prov:
         if len(live) == 1:
             s, g = live[0]
             st.env, st.heap, st.epoch = s.env, s.heap, s.epoch
-            dead_kinds = {b.dead for b, _ in branches if b.dead}
+            dead_bs = [b for b, _ in branches if b.dead]
+            soft = sorted({b.dead for b in dead_bs if b.dead != "raise"})
+            returned = bool(soft) or any("return" in b.exits for b in dead_bs)
             if g is not None:
-                reason = "raise" if dead_kinds == {"raise"} else sorted(dead_kinds - {"raise"})[0]
+                reason = (soft[0] if soft else "return") if returned else "raise"
                 st.ctx.append(("guard", g[0], g[1], reason, id(node)))
+            elif returned:
+                st.ctx.append(("guard", None, None, "return", id(node)))
             if "return" in s.exits:
                 st.ctx.append(("guard", None, None, "return", id(node)))
             return
@@ -493,22 +538,43 @@ class Prov:
             for n in ast.walk(sub):
                 if isinstance(n, ast.Name) and isinstance(n.ctx, ast.Store):
                     assigned.add(n.id)
-        body = st.copy()
-        body.exits = set()
-        inits = {}
-        for v in assigned:
-            if v in st.env:
-                inits[v] = st.env[v]
-                body.env[v] = ("mu", L.id, v)
-        body.ctx.append(("loop", L.id))
-        self.assign(node.target, elem, body, fr, node)
-        self.block(node.body, body, fr)
-        if body.dead in ("continue", "break"):
-            body.dead = None
-        for v, init in inits.items():
-            step = body.env.get(v, ("undef",))
-            if step != ("mu", L.id, v):
-                L.carried[v] = (init, step)
+
+        def run_body(head):
+            body = head.copy()
+            body.exits = set()
+            inits = {}
+            for v in assigned:
+                if v in head.env:
+                    inits[v] = head.env[v]
+                    body.env[v] = ("mu", L.id, v)
+            body.ctx.append(("loop", L.id))
+            self.assign(node.target, elem, body, fr, node)
+            self.block(node.body, body, fr)
+            if body.dead in ("continue", "break"):
+                body.dead = None
+            L.carried = {}
+            for v, init in inits.items():
+                step = body.env.get(v, ("undef",))
+                if step != ("mu", L.id, v):
+                    L.carried[v] = (init, step)
+            return body
+
+        mark = (len(self.events), self._uid)
+        list_lens = {k: len(v) for k, v in self.lists.items()}
+        body = run_body(st)
+        if not body.dead and (body.epoch != st.epoch or body.heap != st.heap):
+            # the body changes attributes of self: what it reads at its head is the join of the state
+            # before the loop and the state at the end of the previous iteration -- interpret it again
+            del self.events[mark[0]:]
+            for table in (self.loops, self.lists, self.localfns):
+                for k in [k for k in table if isinstance(k, int) and k > mark[1]]:
+                    del table[k]
+            for k, n in list_lens.items():
+                del self.lists[k][n:]
+            self._uid = mark[1]
+            head = st.copy()
+            head.heap, head.epoch = self.merge_heaps([(st.heap, st.epoch), (body.heap, body.epoch)])
+            body = run_body(head)
         after = st.copy()
         after.exits = set()
         self.join(st, [(body, None), (after, None)], node)
@@ -862,7 +928,10 @@ class Prov:
     def elem_of(self, it, lid):
         if isinstance(it, tuple) and it:
             if it[0] == "enum":
-                return ("tuple", (("idx", it[1], lid), self.elem_of(it[1], lid)))
+                idx = ("idx", it[1], lid)
+                if len(it) == 3:
+                    idx = ("binop", "Add", idx, it[2])
+                return ("tuple", (idx, self.elem_of(it[1], lid)))
             if it[0] == "phi":
                 return phi([self.elem_of(a, lid) for a in it[1]])
         return ("elem", it, lid)
@@ -1148,8 +1217,12 @@ class Prov:
         self.block(fn.body, sub_st, sub)
         if sub_st.dead is None:
             sub.returns.append((NONE, tuple(st.ctx)))
+            sub.ret_states.append((dict(sub_st.heap), sub_st.epoch))
         del st.ctx[depth:]
-        st.heap, st.epoch = sub_st.heap, sub_st.epoch
+        if sub.ret_states:
+            st.heap, st.epoch = self.merge_heaps(sub.ret_states)
+        else:
+            st.heap, st.epoch = sub_st.heap, sub_st.epoch
         if not sub.returns:
             # the callee raises on every path
             st.dead = "raise"
@@ -1177,6 +1250,11 @@ class Prov:
                 return None
             if nm == "enumerate" and len(args) == 1 and not kwargs:
                 return ("enum", args[0])
+            if nm == "enumerate" and len(args) + len(kwargs) == 2 and (len(args) == 2 or "start" in kwargs):
+                start = args[1] if len(args) == 2 else kwargs["start"]
+                if start == ("const", 0):
+                    return ("enum", args[0])
+                return ("enum", args[0], start)
             if nm == "reversed" and len(args) == 1:
                 return ("reversed", args[0])
             if nm in ("list", "tuple") and len(args) == 1:
@@ -1185,6 +1263,8 @@ class Prov:
                 return ("list", ()) if nm != "dict" else ("dict", ())
             if nm == "next" and len(args) >= 1:
                 return ("next", args[0])
+            if nm == "iter" and len(args) == 1:
+                return args[0]
             if nm == "len" and len(args) == 1:
                 return ("len", args[0])
             if nm == "hasattr" and len(args) == 2:
@@ -1461,3 +1541,101 @@ def none_valued(res, e, t):
             if {a, b} == {t, NONE} and ((op == "Is" and pol) or (op == "IsNot" and not pol)):
                 return True
     return False
+
+
+def mentions(res, term, needle, _seen=None):
+    """Does ``term`` depend on ``needle`` (structurally, through the receiver / arguments of the calls
+    it is the result of, and through loop-carried values)?"""
+    _seen = _seen if _seen is not None else set()
+    stack = [term]
+    while stack:
+        t = stack.pop()
+        if t == needle:
+            return True
+        if isinstance(t, frozenset):
+            stack.extend(t)
+            continue
+        if not isinstance(t, tuple) or not t:
+            continue
+        key = t
+        try:
+            if key in _seen:
+                continue
+            _seen.add(key)
+        except TypeError:
+            pass
+        if t[0] == "ret" and len(t) == 2 and isinstance(t[1], int):
+            e = res.events[t[1]]
+            stack.append(e.recv)
+            stack.extend(e.args)
+            stack.extend(e.kwargs.values())
+            if e.ret is not None:
+                stack.append(e.ret)
+            continue
+        if t[0] == "mu" and len(t) == 3 and t[1] in res.loops and t[2] in res.loops[t[1]].carried:
+            stack.extend(res.loops[t[1]].carried[t[2]])
+            continue
+        if t[0] == "newlist" and len(t) == 2:
+            stack.extend(v for v, _ in res.lists.get(t[1], []))
+            continue
+        if t[0] in ("comp",) and len(t) == 3:
+            stack.append(t[1])
+            if t[2] in res.loops:
+                stack.append(res.loops[t[2]].iter)
+            continue
+        stack.extend(t[1:] if isinstance(t[0], str) else t)
+    return False
+
+
+def proper_part(got, want):
+    """``want.iloc[a:b]`` / ``want[a:b]`` with a constant bound that cuts something off."""
+    if isinstance(got, tuple) and got and got[0] == "item" and isinstance(got[2], tuple) and got[2][:1] == ("slice",):
+        base = got[1]
+        if base == want or base in (("getattr", want, "iloc"), ("getattr", want, "loc")):
+            lo, hi = got[2][1], got[2][2]
+            return (is_const(lo) and lo[1] not in (None, 0)) or (is_const(hi) and hi[1] is not None)
+    return False
+
+
+def forwarded(ctx, res, rule, construct, got, want, ok_detail, bad_detail, loc, witness=None):
+    """Obligation 'the actual is exactly ``want``'.  Equal -> HOLDS; an actual that does not depend on
+    ``want`` at all (absent, constant, another parameter) -> VIOLATION; a value derived from it -> UNDECIDED."""
+    if got == want or (got is not None and res.plain(got) == want):
+        ctx.ok(rule, construct, ok_detail, loc)
+        return True
+    if proper_part(got, want):
+        ctx.violation(rule, construct, "%s: only a part of it is passed: %s" % (bad_detail, res.fmt(got)), loc,
+                      witness or {"actual": res.fmt(got), "expected": res.fmt(want)})
+        return False
+    if got is not None and mentions(res, got, want):
+        ctx.undecided(rule, construct, "%s (derived value %s, not interpretable)" % (bad_detail, res.fmt(got)), loc)
+        return None
+    ctx.violation(rule, construct, "%s: got %s" % (bad_detail, res.fmt(got) if got is not None else "nothing (callee default)"), loc,
+                  witness or {"actual": res.fmt(got) if got is not None else None, "expected": res.fmt(want)})
+    return False
+
+
+def subst(t, old, new):
+    if t == old:
+        return new
+    if isinstance(t, tuple):
+        return tuple(subst(x, old, new) for x in t)
+    if isinstance(t, frozenset):
+        return frozenset(subst(x, old, new) for x in t)
+    return t
+
+
+def bool_behaviour(res, t, param):
+    """Truth value of the term for ``param`` = True / False (None where not decidable by constant folding)."""
+    out = []
+    for v in (True, False):
+        out.append(res.prov.decide(subst(t, param, ("const", v))))
+    return tuple(out)
+
+
+def analysed(ctx, res):
+    """Evidence bookkeeping: one more entry point interpreted, with so many provenance events."""
+    ctx.count("entry points interpreted")
+    ctx.count("provenance events", len(res.events))
+    ctx.count("functions inlined", sum(1 for e in res.events if e.kind in ("inline", "propget")))
+    return res
